@@ -343,8 +343,8 @@ def boolRows (c : Chunk) (mode : Mode) (invalid : Bool) : (n i : Nat) → List B
     | .error e => .error e
     | .ok (some v, _) => boolRows c mode invalid n (i + 1) (el ++ [v == 1]) (va ++ [true])
     | .ok (none, empty) =>
-      if mode = .strict then
-        .error (.other (if empty then "Exception" else "Exception"))
+      -- exception_message 1 (empty, strict) / 2 (not parsable, strict or allow_empty): both raise `Exception`
+      if mode = .strict then .error (.other "Exception")
       else if mode = .allowEmpty && !empty then .error (.other "Exception")
       else boolRows c mode invalid n (i + 1) (el ++ [invalid]) (va ++ [false])
 
